@@ -380,8 +380,23 @@ def translate(loc, cfg, mem, va, priv, write):
         if not cfg.get("have_lpae"):
             return ("any", "TTBCR.EAE without the Large Physical Address Extension: reserved bit")
         return _ld(loc, cfg, mem, mva, priv, write)
-    r = _sd(loc, cfg, mem, mva, priv, write)
-    return _af_vs_domain(loc, cfg, mem, mva, r)
+    r = _af_vs_domain(loc, cfg, mem, mva, _sd(loc, cfg, mem, mva, priv, write))
+    if r[0] == "either":
+        flat = []
+        _flatten(r, flat)
+        for o in flat:
+            if o[0] == "any":
+                return o
+        return ("either", flat)
+    return r
+
+
+def _flatten(r, out):
+    if r[0] == "either":
+        for x in r[1]:
+            _flatten(x, out)
+    else:
+        out.append(r)
 
 
 def _af_vs_domain(loc, cfg, mem, mva, r):
